@@ -34,20 +34,21 @@ Section Proto.
 Variable ip6 : str -> option str.
 Variable handler : str -> hres.
 Variable has_mw has_upload : bool.
+Variable up_call_fails : option str.
 Variable peer_ip : str.
 Variable peer_fp : option str.
 
 Notation route := (route handler).
 Notation handle_gemini := (handle_gemini ip6 handler has_mw peer_ip peer_fp).
-Notation start_upload := (start_upload has_upload).
-Notation process_titan_upload := (process_titan_upload has_mw has_upload peer_ip peer_fp).
-Notation handle_titan_url := (handle_titan_url ip6 has_mw has_upload peer_ip peer_fp).
-Notation data_received := (data_received ip6 handler has_mw has_upload peer_ip peer_fp).
-Notation feed := (feed ip6 handler has_mw has_upload peer_ip peer_fp).
-Notation task_done := (task_done handler has_upload).
-Notation step := (step ip6 handler has_mw has_upload peer_ip peer_fp).
-Notation run := (run ip6 handler has_mw has_upload peer_ip peer_fp).
-Notation final := (final ip6 handler has_mw has_upload peer_ip peer_fp).
+Notation start_upload := (start_upload has_upload up_call_fails).
+Notation process_titan_upload := (process_titan_upload has_mw has_upload up_call_fails peer_ip peer_fp).
+Notation handle_titan_url := (handle_titan_url ip6 has_mw has_upload up_call_fails peer_ip peer_fp).
+Notation data_received := (data_received ip6 handler has_mw has_upload up_call_fails peer_ip peer_fp).
+Notation feed := (feed ip6 handler has_mw has_upload up_call_fails peer_ip peer_fp).
+Notation task_done := (task_done handler has_upload up_call_fails).
+Notation step := (step ip6 handler has_mw has_upload up_call_fails peer_ip peer_fp).
+Notation run := (run ip6 handler has_mw has_upload up_call_fails peer_ip peer_fp).
+Notation final := (final ip6 handler has_mw has_upload up_call_fails peer_ip peer_fp).
 Notation Inv := (Inv has_upload).
 Notation Fed := (Fed ip6 has_upload).
 Notation expected_url := (Spec.C04.expected_url ip6).
@@ -78,7 +79,10 @@ Qed.
 Lemma start_upload_amw s : existsb is_amw (snd (start_upload s)) = false.
 Proof.
   unfold ServerProto.start_upload. destruct (titan s); [|reflexivity].
-  destruct has_upload; [|reflexivity]. rewrite spawn_let. reflexivity.
+  destruct has_upload; [|reflexivity]. destruct up_call_fails as [msg|].
+  - rewrite upload_failed_eq. pose proof (send_amw s (err_resp 40 (lit "Upload error: " ++ msg))).
+    destruct (send_response s _); assumption.
+  - rewrite spawn_let. reflexivity.
 Qed.
 Lemma task_done_amw s id o : existsb is_amw (snd (task_done s id o)) = false.
 Proof.
@@ -147,17 +151,17 @@ Proof.
       intros x [t0 [H1 H2]] more. rewrite Ts in H1. inversion H1; subst.
       apply (expected_titan _ u (buf s ++ d ++ more)); auto.
       rewrite <- app_assoc. rewrite (request_line_line_ext _ (d ++ more) _ _ R). reflexivity.
-    + rewrite (trailing_ignored_gen ip6 handler has_mw has_upload peer_ip peer_fp s d L A).
+    + rewrite (trailing_ignored_gen ip6 handler has_mw has_upload up_call_fails peer_ip peer_fp s d L A).
       apply AmwOK_none. reflexivity.
   - destruct (FA eq_refl) as [B RL].
     destruct (request_line (D ++ d)) as [| | |u rest] eqn:R.
-    + rewrite (dr_A_none ip6 handler has_mw has_upload peer_ip peer_fp s d L) by (rewrite B; exact R).
+    + rewrite (dr_A_none ip6 handler has_mw has_upload up_call_fails peer_ip peer_fp s d L) by (rewrite B; exact R).
       apply AmwOK_none. reflexivity.
-    + rewrite (dr_A_big ip6 handler has_mw has_upload peer_ip peer_fp s d L) by (rewrite B; exact R).
+    + rewrite (dr_A_big ip6 handler has_mw has_upload up_call_fails peer_ip peer_fp s d L) by (rewrite B; exact R).
       rewrite send_error_eq. apply AmwOK_none, send_amw.
-    + destruct (dr_A_bad ip6 handler has_mw has_upload peer_ip peer_fp s d L) as [rest E]; [rewrite B; exact R|].
+    + destruct (dr_A_bad ip6 handler has_mw has_upload up_call_fails peer_ip peer_fp s d L) as [rest E]; [rewrite B; exact R|].
       rewrite E, send_error_eq. apply AmwOK_none, send_amw.
-    + rewrite (dr_A_line ip6 handler has_mw has_upload peer_ip peer_fp s d u rest L) by (rewrite B; exact R).
+    + rewrite (dr_A_line ip6 handler has_mw has_upload up_call_fails peer_ip peer_fp s d u rest L) by (rewrite B; exact R).
       destruct (prefixb titan_prefix u) eqn:P.
       * eapply AmwOK_weaken; [|apply amw_htu]. cbn. intros x [t [H1 H2]] more. subst x.
         apply (expected_titan _ u (rest ++ more)); auto. apply request_line_line_ext. exact R.
@@ -171,8 +175,8 @@ Proof.
   induction sl as [|d r IH]; intros s D I F; cbn [ServerProto.feed concat].
   - apply AmwOK_none. reflexivity.
   - pose proof (amw_data_received s d D I F) as H1.
-    pose proof (Fed_data_received ip6 handler has_mw has_upload peer_ip peer_fp s d D I F) as F1.
-    pose proof (Inv_data_received ip6 handler has_mw has_upload peer_ip peer_fp s d I) as I1.
+    pose proof (Fed_data_received ip6 handler has_mw has_upload up_call_fails peer_ip peer_fp s d D I F) as F1.
+    pose proof (Inv_data_received ip6 handler has_mw has_upload up_call_fails peer_ip peer_fp s d I) as I1.
     destruct (data_received s d) as [s1 a1]. cbn [fst snd] in *.
     specialize (IH s1 (D ++ d) I1 F1). destruct (feed s1 r) as [s2 a2]. cbn [fst snd] in *.
     apply AmwOK_app.
@@ -221,7 +225,7 @@ Proof.
   intros I C x Hx M. apply in_or_app.
   destruct (event_eq_lost e) as [->|NL].
   - left. apply C; [|assumption]. revert Hx. cbn. destruct (tr s); cbn; [rewrite cancel_timer_eq|]; auto.
-  - destruct (e_pend _ _ _ (Eff_step ip6 handler has_mw has_upload peer_ip peer_fp s e NL) x Hx)
+  - destruct (e_pend _ _ _ (Eff_step ip6 handler has_mw has_upload up_call_fails peer_ip peer_fp s e NL) x Hx)
       as [H|[act [H1 H2]]]; [left; auto|].
     right. unfold amw_ids. apply in_flat_map. exists act. split; [assumption|].
     unfold spawn_match in H2. unfold is_mwk in M.
@@ -259,8 +263,8 @@ Proof using Cmw Cip Cfp.
     rewrite (HU T). cbn [stream]. rewrite app_assoc, (H (stream r)). apply eqb_refl.
   - destruct (tr (fst (step s e))) eqn:T'.
     + (* still open: e is not ELost and tr s = true *)
-      assert (NL : e <> ELost) by (intro; subst e; destruct (step_lost_tr ip6 handler has_mw has_upload peer_ip peer_fp s); congruence).
-      pose proof (e_tr _ _ _ (Eff_step ip6 handler has_mw has_upload peer_ip peer_fp s e NL)) as TE.
+      assert (NL : e <> ELost) by (intro; subst e; destruct (step_lost_tr ip6 handler has_mw has_upload up_call_fails peer_ip peer_fp s); congruence).
+      pose proof (e_tr _ _ _ (Eff_step ip6 handler has_mw has_upload up_call_fails peer_ip peer_fp s e NL)) as TE.
       assert (T : tr s = true) by congruence.
       destruct e as [sl| | |]; try congruence.
       * apply (IH _ (D ++ concat sl)).
@@ -283,7 +287,7 @@ Proof using Cmw Cip Cfp.
       * (* the stream relation is irrelevant once the transport is gone *)
         destruct e as [sl| | |].
         -- cbn [ServerProto.step] in *. destruct (tr s) eqn:T; [|exact F].
-           exfalso. pose proof (e_tr _ _ _ (Eff_feed ip6 handler has_mw has_upload peer_ip peer_fp sl s)). congruence.
+           exfalso. pose proof (e_tr _ _ _ (Eff_feed ip6 handler has_mw has_upload up_call_fails peer_ip peer_fp sl s)). congruence.
         -- apply Fed_step_other; [discriminate|assumption].
         -- apply Fed_step_other; [discriminate|assumption].
         -- apply Fed_step_other; [discriminate|assumption].
@@ -296,9 +300,9 @@ End Proto.
 
 Theorem gate_gen ip6 c evs :
   Spec.C04.gate c (Spec.C04.expected_url ip6 (stream evs)) evs
-    (run ip6 (fun _ => c_hres c) (c_mw c) (c_upload c) (c_ip c) (c_fp c) init evs) [] false = true.
+    (run ip6 (fun _ => c_hres c) (c_mw c) (c_upload c) (c_upfail c) (c_ip c) (c_fp c) init evs) [] false = true.
 Proof.
-  apply (gate_run ip6 (fun _ => c_hres c) (c_mw c) (c_upload c) (c_ip c) (c_fp c) c
+  apply (gate_run ip6 (fun _ => c_hres c) (c_mw c) (c_upload c) (c_upfail c) (c_ip c) (c_fp c) c
            eq_refl eq_refl eq_refl evs init []).
   - apply Inv_init.
   - apply Fed_init.
